@@ -31,7 +31,7 @@ func genC20(t *rapid.T) srvCase {
 		out = append(out, op)
 		if op.Op == "send" && op.Kind == "honest" && rapid.IntRange(0, 2).Draw(t, "follow") == 0 {
 			out = append(out, sop{Op: "send", P: op.P, Q: op.Q, Epoch: "current", Reuse: true,
-				Kind: rapid.SampledFrom([]string{"tampered-body", "tampered-sig", "other-signer", "other-signer-with-key", "unsigned", "other-context"}).Draw(t, "fkind")})
+				Kind: rapid.SampledFrom([]string{"tampered-body", "tampered-sig", "other-signer", "other-signer-with-key", "unsigned", "other-context", "other-context-verified"}).Draw(t, "fkind")})
 		}
 	}
 	return srvCase{Ops: out}
